@@ -16,7 +16,14 @@ pub fn is_parent<T: EbmlSpecification<T> + EbmlTag<T> + Clone>(current_id: u64, 
 /// A sibling tag is one which shares the same direct parent.  A separate instance of the current tag counts as a sibling.
 /// 
 pub fn is_sibling<T: EbmlSpecification<T> + EbmlTag<T> + Clone>(current_id: u64, test_id: u64) -> bool {
-    <T>::get_path_by_id(current_id) == <T>::get_path_by_id(test_id)
+    let current_path = <T>::get_path_by_id(current_id);
+    let test_path = <T>::get_path_by_id(test_id);
+    current_path.len() == test_path.len() && current_path.iter().zip(test_path).all(|parts| match parts {
+        (PathPart::Id(current), PathPart::Id(test)) => current == test,
+        // A global placeholder without a minimum is one with a minimum of 0
+        (PathPart::Global((current_min, current_max)), PathPart::Global((test_min, test_max))) => current_min.unwrap_or(0) == test_min.unwrap_or(0) && current_max == test_max,
+        _ => false,
+    })
 }
 
 ///
